@@ -77,6 +77,7 @@ var c16templates = []string{
 
 func buildShared(seed int64) *c16shared {
 	rng := rand.New(rand.NewPCG(uint64(seed)*31+7, 0xC16))
+
 	sh := &c16shared{tmpls: c16templates}
 	// 3 shared objects per decoder kind: two decoded, one invalid (fresh constructor)
 	for k := lib.Kind(0); k < lib.NKinds; k++ {
@@ -94,8 +95,11 @@ func buildShared(seed int64) *c16shared {
 	}
 	for i, o := range sh.objs {
 		if !o.Kind.V2() && sh.srcs[i].Mode == 0 {
+			// the shared objects themselves stay untouched until the goroutines are released (their first
+			// query must happen concurrently); shared reports are built from twins
+			twin := sh.srcs[i].make()
 			for _, lang := range []string{"en", "ja"} {
-				rep, pan := lib.NewReport(o, tagOf(lang), true)
+				rep, pan := lib.NewReport(twin, tagOf(lang), true)
 				if pan == nil {
 					sh.reports = append(sh.reports, rep)
 					sh.repObj = append(sh.repObj, i)
@@ -211,67 +215,73 @@ func c16child(args []string, _ int64, _ string) int {
 		}
 	}
 
-	// 2. shared objects, then the concurrent phase
-	sh := buildShared(seed)
-	lists := make([][]c16op, G)
-	for g := 0; g < G; g++ {
-		rng := rand.New(rand.NewPCG(uint64(seed)*1000003+uint64(round)*1009+uint64(g), 0xC16))
-		lists[g] = make([]c16op, nOps)
-		for i := range lists[g] {
-			lists[g][i] = c16genOp(rng, sh)
-		}
-	}
-	results := make([][]uint64, G)
-	events := make([][]c16event, G)
-	start := make(chan struct{})
-	var wg sync.WaitGroup
-	t0 := time.Now()
-	for g := 0; g < G; g++ {
-		wg.Add(1)
-		results[g] = make([]uint64, nOps)
-		events[g] = make([]c16event, 0, nOps)
-		go func(g int) {
-			defer wg.Done()
-			<-start
-			// no synchronisation with other goroutines from here on: per-goroutine state only
-			for i := range lists[g] {
-				op := &lists[g][i]
-				a := int64(time.Since(t0))
-				s := c16exec(op, sh)
-				b := int64(time.Since(t0))
-				results[g][i] = Hash(s)
-				if op.kind < nSharedKinds {
-					obj := op.obj
-					if op.kind == kExportShared {
-						obj = 1000 + op.obj
-					}
-					events[g] = append(events[g], c16event{int32(op.kind), int32(obj), a, b})
-				}
-			}
-		}(g)
-	}
-	close(start)
-	wg.Wait()
-
-	// 3. sequential re-execution of the same operations
+	// 2./3. phases: fresh (never queried) shared objects, the concurrent phase, then the sequential re-execution
+	const perPhase = 250
 	seqAll := uint64(1469598103934665603)
 	distinct := map[uint64]struct{}{}
-	for g := 0; g < G; g++ {
-		for i := range lists[g] {
-			op := &lists[g][i]
-			s := c16exec(op, sh)
-			h := Hash(s)
-			seqAll = seqAll*1099511628211 ^ h
-			distinct[Hash(fmt.Sprint(op.kind, op.obj, op.p, op.src))] = struct{}{}
-			res.KindCounts[c16KindNames[op.kind]]++
-			if h != results[g][i] && len(res.Mismatches) < 20 {
-				res.Mismatches = append(res.Mismatches, fmt.Sprintf("goroutine %d op #%d %s obj=%d p=%d src=%v: concurrent result differs from sequential result %q", g, i, c16KindNames[op.kind], op.obj, op.p, op.src, clip(s, 300)))
+	var allEvents [][]c16event
+	t0 := time.Now()
+	for phase := 0; phase*perPhase < nOps; phase++ {
+		sh := buildShared(seed*131 + int64(round)*17 + int64(phase))
+		n := min(perPhase, nOps-phase*perPhase)
+		lists := make([][]c16op, G)
+		for g := 0; g < G; g++ {
+			rng := rand.New(rand.NewPCG(uint64(seed)*1000003+uint64(round)*1009+uint64(g), 0xC16+uint64(phase)))
+			lists[g] = make([]c16op, n)
+			for i := range lists[g] {
+				lists[g][i] = c16genOp(rng, sh)
 			}
-			res.Ops++
+		}
+		results := make([][]uint64, G)
+		events := make([][]c16event, G)
+		start := make(chan struct{})
+		var wg sync.WaitGroup
+		for g := 0; g < G; g++ {
+			wg.Add(1)
+			results[g] = make([]uint64, n)
+			events[g] = make([]c16event, 0, n)
+			go func(g int) {
+				defer wg.Done()
+				<-start
+				// no synchronisation with other goroutines from here on: per-goroutine state only
+				for i := range lists[g] {
+					op := &lists[g][i]
+					a := int64(time.Since(t0))
+					s := c16exec(op, sh)
+					b := int64(time.Since(t0))
+					results[g][i] = Hash(s)
+					if op.kind < nSharedKinds {
+						obj := op.obj + phase*10000
+						if op.kind == kExportShared {
+							obj += 5000
+						}
+						events[g] = append(events[g], c16event{int32(op.kind), int32(obj), a, b})
+					}
+				}
+			}(g)
+		}
+		close(start)
+		wg.Wait()
+		allEvents = append(allEvents, events...)
+		// sequential re-execution of the same operations
+		for g := 0; g < G; g++ {
+			for i := range lists[g] {
+				op := &lists[g][i]
+				s := c16exec(op, sh)
+				h := Hash(s)
+				seqAll = seqAll*1099511628211 ^ h
+				distinct[Hash(fmt.Sprint(op.kind, op.obj, op.p, op.src, phase))] = struct{}{}
+				res.KindCounts[c16KindNames[op.kind]]++
+				if h != results[g][i] && len(res.Mismatches) < 20 {
+					res.Mismatches = append(res.Mismatches, fmt.Sprintf("phase %d goroutine %d op #%d %s obj=%d (%s %q) p=%d src=%v: concurrent result differs from sequential result %q", phase, g, i, c16KindNames[op.kind], op.obj, sh.srcs[op.obj%len(sh.srcs)].Kind, sh.srcs[op.obj%len(sh.srcs)].Input, op.p, op.src, clip(s, 300)))
+				}
+				res.Ops++
+			}
 		}
 	}
 	res.SeqDigest = seqAll
 	res.Distinct = len(distinct)
+	events := allEvents
 
 	// 4. overlap matrix over the recorded history (same shared object, intervals intersect)
 	byObj := map[int32][]c16event{}
@@ -399,7 +409,7 @@ func runC16(r *Run) int {
 	runOne := func(round int, c cfg, tag string) (*c16result, error) {
 		cmd := exec.Command(monBin, "c16child", fmt.Sprint(r.Seed), fmt.Sprint(round), fmt.Sprint(c.G), fmt.Sprint(c.ops))
 		cmd.Env = append(os.Environ(), fmt.Sprintf("GOMAXPROCS=%d", c.procs),
-			"GORACE=halt_on_error=0 log_path="+filepath.Join(r.OutDir, fmt.Sprintf("race-%s%d", tag, round)))
+			"GORACE=halt_on_error=0 exitcode=0 log_path="+filepath.Join(r.OutDir, fmt.Sprintf("race-%s%d", tag, round)))
 		var stderr bytes.Buffer
 		cmd.Stderr = &stderr
 		out, err := cmd.Output()
@@ -512,7 +522,7 @@ func runC16(r *Run) int {
 func replayC16(r *Run, c Case) {
 	monBin, _ := os.Executable()
 	cmd := exec.Command(monBin, "c16child", fmt.Sprint(r.Seed), c.Args["round"], c.Args["goroutines"], c.Args["ops"])
-	cmd.Env = append(os.Environ(), "GOMAXPROCS="+c.Args["gomaxprocs"], "GORACE=halt_on_error=0 log_path="+filepath.Join(r.OutDir, "race-replay"))
+	cmd.Env = append(os.Environ(), "GOMAXPROCS="+c.Args["gomaxprocs"], "GORACE=halt_on_error=0 exitcode=0 log_path="+filepath.Join(r.OutDir, "race-replay"))
 	out, err := cmd.CombinedOutput()
 	fmt.Println(clip(string(out), 3000), err)
 	n, reps := parseRaceLogs(filepath.Join(r.OutDir, "race-replay.*"))
